@@ -7,16 +7,16 @@ from concurrent.futures import ThreadPoolExecutor
 INVS = "SlotBound Ordered EarliestGrant BatchEquivalence RefusalIsNoOp Emit"
 
 
-def L(api, k, mw):
-    return dict(api=api, k=k, mw=mw)
+def L(api, k, mw, dl=0):
+    return dict(api=api, k=k, mw=mw, dl=dl)
 
 # name, kind, I, P, M, executor maxWait, letters, ticks
 CONFIGS = [
     ("smooth3", "smooth", 3, 1, 1, 0, [L("Try", 1, 0), L("Try", 2, 0), L("Reserve", 1, -1), L("Reserve", 3, -1), L("TryReserve", 1, 3), L("TryReserve", 2, 2), L("Exec", 1, 0)], [1, 2, 3, 10]),
-    ("smooth4w", "smooth", 4, 1, 1, 5, [L("Try", 1, 0), L("Reserve", 2, -1), L("TryReserve", 2, 4), L("Block", 1, -1), L("Block", 2, 4), L("Exec", 1, 5)], [1, 3, 4, 9]),
+    ("smooth4w", "smooth", 4, 1, 1, 5, [L("Try", 1, 0), L("Reserve", 2, -1), L("TryReserve", 2, 4), L("Block", 1, -1), L("Block", 2, 4), L("BlockDl", 1, 9, 2), L("Exec", 1, 5)], [1, 3, 4, 9]),
     ("smooth1", "smooth", 1, 1, 1, 1, [L("Try", 1, 0), L("Reserve", 2, -1), L("TryReserve", 3, 1), L("Block", 1, 1), L("Exec", 1, 1)], [1, 2]),
     ("bursty2x4", "bursty", 1, 4, 2, 0, [L("Try", 1, 0), L("Try", 2, 0), L("Reserve", 1, -1), L("Reserve", 3, -1), L("TryReserve", 1, 4), L("TryReserve", 3, 3), L("Exec", 1, 0)], [1, 3, 4, 13]),
-    ("bursty1x4w", "bursty", 1, 4, 1, 6, [L("Try", 1, 0), L("Reserve", 2, -1), L("TryReserve", 2, 8), L("Block", 1, -1), L("Block", 2, 4), L("Exec", 1, 6)], [1, 4, 5, 22]),
+    ("bursty1x4w", "bursty", 1, 4, 1, 6, [L("Try", 1, 0), L("Reserve", 2, -1), L("TryReserve", 2, 8), L("Block", 1, -1), L("Block", 2, 4), L("BlockDl", 2, 8, 3), L("Exec", 1, 6)], [1, 4, 5, 22]),
     ("bursty3x5", "bursty", 1, 5, 3, 5, [L("Try", 2, 0), L("Reserve", 4, -1), L("Reserve", 1, -1), L("TryReserve", 3, 5), L("Block", 3, 10), L("Exec", 1, 5)], [2, 5, 8, 26]),
 ]
 
